@@ -14,61 +14,61 @@ def hook_commits():
 # id -> (category, design_ref, technique, level text, level note)
 CHECKS = {
  "C01": ("exploration", "5 C01; 4.2-4.8", "bounded exhaustive enumeration of input/configuration spaces on the real builder, reference decoder as oracle",
-   "Every case of the stated finite spaces (all lengths x modes x levels, all 3840 forced cells, the option lattice, every packing group x alignment, every input of <= 2 bytes, every byte pair inside longer text, denser content under forced wider modes, all 24 setter orders and doubled setters, dense lengths under forced versions, UTF-8 text, anti-mask payloads, same-thread and same-builder build histories) is built by the real crate and decoded by an independent ISO 18004 reference decoder (data codewords taken as read, no RS repair); the payload must equal the input byte for byte. Exhaustive over those spaces, not over all byte strings.",
+   "Every case of the stated finite spaces (all lengths x modes x levels, all 3840 forced cells, the option lattice, every packing group x alignment, every input of <= 2 bytes, every byte pair inside longer text, denser content under forced wider modes, all 24 setter orders and doubled setters, dense lengths under forced versions, UTF-8 text, anti-mask payloads, runs of equal characters by length and offset, exact occurrence counts, automatic-mode long and two-run strings, payloads at capacity whose first or last character a clean-up would drop, same-thread and same-builder build histories) is built by the real crate and decoded by an independent ISO 18004 reference decoder (data codewords taken as read, no RS repair); the payload must equal the input byte for byte. Exhaustive over those spaces, not over all byte strings.",
    "Trusted: reference model R (validated against the unrelated qrcode crate and its own round trip). Assumption A-LOCAL: content interacts only through its packing group, the linear EC code and mask selection."),
  "C02": ("exploration", "5 C02", "bounded exhaustive enumeration + exhaustive bounded fault (corruption) enumeration on real symbols",
-   "All (version, level) pairs with many payloads and all masks: codewords read back, split by Table 9 in standard interleave order, all ec syndromes of every block zero (bitwise GF(256)), remainder bits zero; corruption corollary: every subset of <= t corrupted codewords on v1 (caps in quick tier) and structured patterns elsewhere decoded by a Berlekamp-Massey decoder; extreme, sparse and anti-mask payloads for all 160 pairs; same-thread build histories (revisits, shrink/grow) on fresh threads.",
+   "All (version, level) pairs with many payloads and all masks: codewords read back, split by Table 9 in standard interleave order, all ec syndromes of every block zero (bitwise GF(256)), remainder bits zero; corruption corollary: every subset of <= t corrupted codewords on v1 (caps in quick tier) and structured patterns elsewhere decoded by a Berlekamp-Massey decoder; extreme, sparse, anti-mask and codeword-crafted payloads (incl. one pure pad block among real data) for all 160 pairs; same-thread build histories (revisits, shrink/grow) on fresh threads.",
    "Trusted: R's GF arithmetic/RS decoder (self-checked) and Table 9 as typed in R (cross-checked with the qrcode crate at setup)."),
  "C03": ("exploration", "5 C03", "bounded exhaustive enumeration of configurations, computed geometry as oracle",
    "Every coordinate of every matrix over all 40 versions x 4 levels x 8 masks x 3 modes and several payloads is compared with geometry computed from first principles (finder, separator, timing, Annex E alignment centres, dark module); the tail of the backing array must stay default; side = reported version; clone()/clone_from() reproduce the symbol; same-thread and same-builder build histories.",
    "Trusted: R's geometry (counted data modules = closed formula; cross-decoded third-party symbols)."),
  "C04": ("exploration", "5 C04", "bounded exhaustive enumeration of the forced/automatic option lattice",
-   "The full lattice (level|auto) x (mask|auto) x (version|auto) x (mode|auto) and all 3840 forced cells: both format copies = computed BCH(15,5)^0x5412, both version copies = computed BCH(18,6), reported fields = physically encoded values = forced options (in all 24 setter orders, also when every setter is first called with another value), default level Q; build histories; forced modes less dense than the content up to beyond the forced mode's version-40 capacity; forced masks on uniform payloads; the input handed over in other container shapes.",
+   "The full lattice (level|auto) x (mask|auto) x (version|auto) x (mode|auto) and all 3840 forced cells: both format copies = computed BCH(15,5)^0x5412, both version copies = computed BCH(18,6), reported fields = physically encoded values = forced options (in all 24 setter orders, also when every setter is first called with another value), default level Q; build histories; forced modes less dense than the content up to beyond the forced mode's version-40 capacity; forced masks on uniform payloads; the input handed over in other container shapes; payloads beginning with byte-order marks / schemes / line ends.",
    "Trusted: R's BCH computation (distance self-check, ISO example words)."),
  "C05": ("exploration", "5 C05", "bounded exhaustive enumeration of lengths x forced versions against the capacity inequality",
-   "Thorough: every length 0..=7200 x 3 modes x 4 levels with automatic version and the complete (length x forced version) triangle; quick: all 480 capacity thresholds -1/0/+1 and their forced-version neighbourhoods; far-beyond-capacity lengths incl. the neighbourhoods of 2^16..2^24; denser content under forced wider modes with forced versions in the gap; forced versions without a level; UTF-8 text; foreign bytes far into capacity-sized strings; inputs delivered with spare capacity / grown by pushes / as String; expected version/error from R's capacity inequality.",
+   "Thorough: every length 0..=7200 x 3 modes x 4 levels with automatic version and the complete (length x forced version) triangle; quick: all 480 capacity thresholds -1/0/+1 and their forced-version neighbourhoods; far-beyond-capacity lengths incl. the neighbourhoods of 2^16..2^24; denser content under forced wider modes with forced versions in the gap; forced versions without a level; UTF-8 text; foreign bytes far into capacity-sized strings; inputs delivered with spare capacity / grown by pushes / as String; automatic-mode long strings with one other character at every position; payloads at capacity and capacity+1 whose first or last character a clean-up would drop; expected version/error from R's capacity inequality.",
    "Trusted: R's capacity computation (Table 9 + geometry). An input beyond version 40 must give 'data too big' also when a version is forced."),
  "C06": ("exploration", "5 C06", "bounded exhaustive enumeration, bit-exact comparison with the reference 7.4 encoder",
-   "All data codewords of every symbol of S_len, S_cell, S_group, S_small, S_opt, S_pair_ctx, S_cross, S_order, S_forced_dense, S_cap_families (incl. sparse), utf8 text (thorough: the complete length x forced-version triangle) equal R's single-segment bit stream (indicator, count width class, packing, terminator, bit padding, pad alternation to capacity).",
+   "All data codewords of every symbol of S_len, S_cell, S_group, S_small, S_opt, S_pair_ctx, S_cross, S_order, S_forced_dense, S_cap_families (incl. sparse), S_runs, S_counts, utf8 text (thorough: the complete length x forced-version triangle) equal R's single-segment bit stream (indicator, count width class, packing, terminator, bit padding, pad alternation to capacity).",
    "Trusted: R's bit-stream encoder. A-LOCAL as for C01."),
  "C09": ("exploration", "5 C09", "bounded exhaustive enumeration of short inputs and class patterns",
-   "Every byte string of length <= 2, all class patterns to length 8, all 256 byte values at every position of strings to length 5/6, long strings with one foreign character at every position, every byte value at chosen positions of longer strings, two-run strings with a foreign byte (also under forced versions), a corpus of scheme/record prefixes with BOM and line ends, foreign bytes far into capacity-sized strings, the S_len length set, a ruling-out byte value occurring exactly 255..1280 times: mode field and decoded indicator equal R's literal definition and the characters decode unchanged.",
+   "Every byte string of length <= 2, all class patterns to length 8, all 256 byte values at every position of strings to length 5/6, long strings with one foreign character at every position, every byte value at chosen positions of longer strings, two-run strings with a foreign byte (also under forced versions), a corpus of scheme/record prefixes with BOM and line ends, foreign bytes far into capacity-sized strings, the S_len length set, a ruling-out byte value occurring exactly 255..1280 times, runs of equal characters by length and offset, sign / point / exponent characters among digits: mode field and decoded indicator equal R's literal definition and the characters decode unchanged.",
    "The classification is per byte; strings longer than the enumerated ones are covered by class patterns and position sweeps, not jointly."),
  "C10": ("exploration", "5 C10", "bounded exhaustive enumeration under catch_unwind with overflow checks and debug assertions",
-   "Union of all build spaces (lengths to 8000, all cells, option lattice, groups, short inputs, forced-version neighbourhoods, far-beyond-capacity lengths, class patterns, byte pairs in context, denser content under forced modes, setter orders, dense forced lengths, anti-mask payloads, corpus, long foreign): build returns Ok or a documented error, never unwinds; subject compiled with overflow checks and debug assertions.",
+   "Union of all build spaces (lengths to 8000, all cells, option lattice, groups, short inputs, forced-version neighbourhoods, far-beyond-capacity lengths, class patterns, byte pairs in context, denser content under forced modes, setter orders, dense forced lengths, anti-mask payloads, corpus, long foreign, runs, counts), all after three builds outside the domain that panic and are caught: build returns Ok or a documented error, never unwinds; subject compiled with overflow checks and debug assertions.",
    "A process abort (as opposed to a panic) is attributed by the supervising parent process; non-termination by a watchdog."),
  "C07": ("exploration", "5 C07; 4.6", "bounded exhaustive enumeration of block contents on a linearity basis through the hooked division routine",
    "All 160 generators coefficient by coefficient against prod(x - alpha^i); for each of the 98 block shapes in use: zero block, every single-nonzero-byte block (255 values x every position), all position pairs, dense and zero-run blocks through the real division routine vs R's schoolbook remainder over a bitwise-defined field; the real interleaver for all 160 layouts incl. data whose only non-zero byte sits at the start, middle or one of the last nine positions of one block; API tie-in on v1-v3(5).",
    "Hook H1 forwards to the crate-private routines. A-LIN: non-linearity confined to >= 3 interacting bytes would escape."),
  "C08": ("exploration", "5 C08; 4.7", "bounded exhaustive enumeration of all coordinates x all 8 masks x all 40 sizes",
-   "For all 160 (version, level) and several payloads the 8 forced-mask builds and the automatic one are compared at every coordinate: data modules differ exactly where the literal Table 10 predicates disagree, function modules identical, and un-masking with the mask named in each symbol's own format information yields one matrix (implies all 28 pairs). The public masking entry point on an all-data grid of every side x 8 masks shows Table 10 at every coordinate (nothing outside the square) and the build that follows on the same thread is the reference symbol.",
+   "For all 160 (version, level) and several payloads the 8 forced-mask builds and the automatic one are compared at every coordinate: data modules differ exactly where the literal Table 10 predicates disagree, function modules identical, and un-masking with the mask named in each symbol's own format information yields one matrix (implies all 28 pairs). The public masking entry point on an all-data grid of every side x 8 masks shows Table 10 at every coordinate (nothing outside the square) and the build that follows on the same thread is the reference symbol, in this process and in 4 fresh processes whose first symbol has another size.",
    "Encoding region taken from R's region map."),
  "C11": ("exploration", "5 C11; 4.8", "bounded exhaustive enumeration of selection instances, candidates observed through hook H2, documented penalty recomputed by the reference model",
-   "Every input of <= 2 bytes (two levels), S_len, extreme, sparse and anti-mask payloads for all 160 (version, level), designed instances whose planted penalty feature decides a close race (seeds searched with R; versions 10, 12, 40), and automatic builds after a history on the same thread / builder: candidates (when all 8 are recorded) = Table 10 masks on the same placed codewords; the emitted mask is in the argmin of the documented penalty recomputed by R on the recorded candidates (ties accepted, interval on exact 5 % edges); forced mask overrides on S_cell. When the recorder is not reached once per mask the decision is black-box from the 8 forced-mask builds.",
+   "Every input of <= 2 bytes (two levels), S_len, extreme, sparse and anti-mask payloads for all 160 (version, level), designed instances whose planted penalty feature decides a close race (seeds searched with R; versions 10, 12, 40), payloads with a zero-penalty candidate (hill climb with R), and automatic builds after a history on the same thread / builder: candidates (when all 8 are recorded) = Table 10 masks on the same placed codewords; the emitted mask is in the argmin of the documented penalty recomputed by R on the recorded candidates (ties accepted, interval on exact 5 % edges); forced mask overrides on S_cell. When the recorder is not reached once per mask the decision is black-box from the 8 forced-mask builds.",
    "Hook H2 records the candidate as scored. Only argmin membership is compared."),
  "C16": ("exploration", "5 C16", "bounded exhaustive enumeration incl. the complete single-module basis of synthetic matrices",
-   "to_str() of all S_cell symbols and of synthetic matrices (8 patterns x 40 sizes; one dark/one light module at every coordinate: quick 7 sizes, thorough all 40; two-module toggles rendered right after the all-light matrix) is parsed back: line/character counts, alphabet, every module in place, one-module light border.",
+   "to_str() of all S_cell symbols and of synthetic matrices (8 patterns x 40 sizes; one dark/one light module at every coordinate: quick 7 sizes, thorough all 40; two-module toggles rendered right after the all-light matrix; every eighth built symbol right after a rendering that fails on the same thread) is parsed back: line/character counts, alphabet, every module in place, one-module light border.",
    "The renderer is linear in the modules it reads (each character depends on two modules), so the single-module basis plus dense patterns covers position mix-ups."),
  "C12": ("model_checking", "5 C12", "explicit-state breadth-first search over builder programs (model state hashed), every path replayed on the real SvgBuilder; plus exhaustive sweeps",
-   "All SvgBuilder call sequences to depth 3 (thorough 4) over a 32-operation alphabet are replayed on fresh real builders and rendered on two symbols; the abstract model (layer list, margin, colours, image) predicts the document, which an independent strict XML parser and SVG path interpreter check: well-formed, square viewBox/background, one path per layer, sub-paths in bijection with dark modules, every layer's geometry equal to what its shape draws alone, single image element whose decoded href equals the string. Sweeps: 40 versions x 6 shapes x margins {0,1,4,16} and wide margins to 1000; 3-8 layers on versions 20/30/40; synthetic matrices (blank rows/columns, single modules); 5120 colours x all conversion routes; ~20 000 image strings: all strings of length <= 3 over 14 characters (XML-special, non-ASCII, braces) alone and inside 7 contexts.",
+   "All SvgBuilder call sequences to depth 3 (thorough 4) over a 32-operation alphabet are replayed on fresh real builders and rendered on two symbols; the abstract model (layer list, margin, colours, image) predicts the document, which an independent strict XML parser and SVG path interpreter check: well-formed, square viewBox/background, one path per layer, sub-paths in bijection with dark modules, every layer's geometry equal to what its shape draws alone, single image element whose decoded href equals the string. Sweeps: 40 versions x 6 shapes x margins {0,1,4,16} and wide margins to 1000; 3-8 layers on versions 20/30/40; data URIs of 2 KB to 1 MB; synthetic matrices (blank rows/columns, single modules); 5120 colours x all conversion routes; ~20 000 image strings: all strings of length <= 3 over 14 characters (XML-special, non-ASCII, braces) alone and inside 7 contexts.",
    "Model = 'setters overwrite, shape calls append'; every enumerated trace is an execution of the implementation (traces_validated_against_impl = all). Custom Shape::Command callbacks and string colours are out of scope."),
  "C13": ("exploration", "5 C13", "bounded exhaustive enumeration of renderer configurations; independent PNG decoder as oracle",
-   "Square shape at original scale for all 40 versions (every pixel); 6 shapes x versions x margins x 9 fit requests x 6 colour pairs through all colour conversion routes incl. the layer's own colour (shape_color): pixmap square with the requested side, centre pixel of every cell exact, every pixel for the square shape at integer scale; to_bytes() decoded by an own PNG reader (inflate, CRCs, unfilter) equals the de-multiplied pixmap, also on a builder that has rendered another symbol of the same size.",
+   "Square shape at original scale for all 40 versions (every pixel); 6 shapes x versions x margins x 9 fit requests x 6 colour pairs through all colour conversion routes incl. the layer's own colour (shape_color), the unnamed default shape, a half-transparent background and two layered configurations (top layer decides): pixmap square with the requested side, centre pixel of every cell exact, every pixel for the square shape at integer scale; to_bytes() decoded by an own PNG reader (inflate, CRCs, unfilter) equals the de-multiplied pixmap, also on a builder that has rendered another symbol of the same size.",
    "resvg/usvg/tiny-skia/png treated as part of the subject. Opaque module colours, background alpha 0/255 only."),
  "C17": ("model_checking", "5 C17", "explicit-state breadth-first search over option-setter programs de-duplicated on the implementation's own state, every transition executed on the real object, outputs compared with the native API",
-   "BFS from SvgOptions::new() to depth 3 (thorough 4) over an 81-operation alphabet including 12 malformed colour strings, an image string with literal entities, position arrays of length 0-3, size without position and vice versa; every (state, operation) transition runs on the real object under catch_unwind; in every distinct state qr_svg is byte-compared with the native SvgBuilder configured from the abstract model; qr() compared with the native default build around every capacity edge; all 3906 short strings over {# 0 f g e-acute} and 144 strings of valid hex pairs followed by a tail through each colour setter; states reached again by a program whose model differs are judged against that model too; all sequences of 3 (4) entry-point calls on one thread incl. an unencodable content.",
+   "BFS from SvgOptions::new() to depth 3 (thorough 4) over an 81-operation alphabet including 12 malformed colour strings, an image string with literal entities, explicit opaque / transparent alpha, a position pair with a NaN entry, position arrays of length 0-3, size without position and vice versa; every (state, operation) transition runs on the real object under catch_unwind; in every distinct state qr_svg is byte-compared with the native SvgBuilder configured from the abstract model; qr() compared with the native default build around every capacity edge; all 3906 short strings over {# 0 f g e-acute} and 144 strings of valid hex pairs followed by a tail through each colour setter; states reached again by a program whose model differs are judged against that model too; all sequences of 3 (4) entry-point calls on one thread incl. an unencodable content.",
    "Hook H4 compiles src/wasm.rs for the host; the wasm32 target itself (32-bit usize) is not executed. Malformed colour strings may be ignored or leave any valid colour."),
  "C19": ("fault_enumeration", "5 C19", "exhaustive enumeration of fault sequences up to 2 (thorough 3) deviations on the real write path by LD_PRELOAD injection, call indices discovered from the syscall log",
-   "For SVG and PNG to_file on 11 (19) builder/symbol targets (default, rounded squares, a caller-supplied sparse shape, embedded image as parameterless data URI, fit_width, embedded image as relative file name with another output directory): real OS faults (missing directory, directory, /dev/full, NUL, empty, long non-ASCII paths, name too long), fault-free writes over 7 kinds of existing file, and every (k-th open x 12 classes | k-th write x 11 classes, incl. persistent ones) sequence of <= 2 (3) deviations, with and without a stale file; Ok implies file bytes = in-memory rendering; after a delivered fault Err or a complete file; the error value survives Debug/Display and conversion into ConvertError; never a panic or abort (child process).",
+   "For SVG and PNG to_file on 11 (19) builder/symbol targets (default, rounded squares, a caller-supplied sparse shape, embedded image as parameterless data URI, fit_width, a fit box of 4e9 x 300, a single coloured layer, embedded image as relative file name with another output directory, an embedded image on a round backdrop, exports after exports that failed inside the renderer): real OS faults (missing directory, directory, /dev/full, NUL, empty, long non-ASCII paths, name too long), fault-free writes over 7 kinds of existing file and through relative paths with . and .. components, and every (k-th open x 12 classes | k-th write x 13 classes, incl. persistent ones) sequence of <= 2 (3) deviations, with and without a stale file; Ok implies file bytes = in-memory rendering; after a delivered fault Err or a complete file; the error value survives Debug/Display and conversion into ConvertError; never a panic or abort (child process).",
    "OS modelled by the shim's fault classes; close/fsync faults not modelled (crate does not fsync)."),
  "C18": ("exploration", "5 C18", "bounded exhaustive enumeration of frame configurations, attributes parsed back from the SVG",
-   "All 2040 default placements (40 versions x 3 frame shapes x margins 0..16) and ~50k (100k thorough) override combinations: square, centred, module-aligned, monotone, < 40 %, clear of finders, image centred and no larger; overrides: requested size, gap (less at most one module), position honoured, whatever the image string (file name, XML-special characters, 6 KB data URI), also for one-decimal values, in the opposite setter order and on a reused builder; the frame located in the pixels of ImageBuilder agrees with the SVG.",
+   "All 2040 default placements (40 versions x 3 frame shapes x margins 0..16) and ~50k (100k thorough) override combinations: square, centred, module-aligned, monotone, < 40 %, clear of finders, image centred and no larger; overrides: requested size, gap (less at most one module), position honoured, whatever the image string (file name, XML-special characters, 6 KB data URI) and the module shape, also for positions inside the first module, also for one-decimal values, in the opposite setter order and on a reused builder; the frame located in the pixels of ImageBuilder agrees with the SVG.",
    "Real-valued overrides are a finite grid (the property says sampled)."),
  "C14": ("model_checking", "5 C14", "explicit-state search over call histories replayed on real builders (pristine child processes as oracle) + stateless exploration of all thread interleavings at guarded scheduling points under a controlled scheduler with iterative preemption bounding",
-   "(a) all builder call sequences of depth 4 (thorough 5) for 4 inputs (incl. a mode setter value the input does not allow, overridden later; 4 unrelated builds), every build compared with a fresh builder in a pristine child process and with the reference encoder; (a') tie inputs (found with R) built after predecessors with different winners; (b) all SvgBuilder/terminal sequences of depth 4 and ImageBuilder sequences of depth 3 (4) incl. a failing render: every render equals a fresh renderer's, QRCode untouched, renders recomputed in reverse order in a fresh process; (c) 6 thread programs (2-3 real threads, incl. a shared &QRBuilder) under a controlled scheduler: all interleavings with <= 1-2 preemptions on the fine point set (~80 points per build) and <= 2-3 on the coarse set; every thread's result = sequential pristine result; racy canary as vacuity guard; replay-twice determinism gate; (d) the same scheduler at function-entry granularity on a second build of the subject (nightly, opt-level 0, -Zinstrument-mcount, harness-defined mcount): 5 (thorough 8) thread programs incl. terminal and SVG renders of two sizes, all interleavings with <= 1 preemption at the first k (1; thorough 3) entries of every (function, call site) pair per operation, expectations from fresh single-threaded processes.",
+   "(a) all builder call sequences of depth 4 (thorough 5) for 4 inputs (incl. a mode setter value the input does not allow, overridden later; 4 unrelated builds), every build compared with a fresh builder in a pristine child process and with the reference encoder; (a') tie inputs (found with R) built after predecessors with different winners; (a'') one input in 64 live builders and in other containers; (e) the same builds and renders in 7 fresh processes in different orders of sizes and under another environment; (b) all SvgBuilder/terminal sequences of depth 4 and ImageBuilder sequences of depth 3 (4) incl. a failing PNG render and a failing terminal render: every render equals a fresh renderer's, QRCode untouched, renders recomputed in reverse order in a fresh process; (c) 6 thread programs (2-3 real threads, incl. a shared &QRBuilder) under a controlled scheduler: all interleavings with <= 1-2 preemptions on the fine point set (~80 points per build) and <= 2-3 on the coarse set; every thread's result = sequential pristine result; racy canary as vacuity guard; replay-twice determinism gate; (d) the same scheduler at function-entry granularity on a second build of the subject (nightly, opt-level 0, -Zinstrument-mcount, harness-defined mcount): 5 (thorough 8) thread programs incl. terminal and SVG renders of two sizes, all interleavings with <= 1 preemption at the first k (1; thorough 3) entries of every (function, call site) pair per operation, expectations from fresh single-threaded processes.",
    "(c) preempts at hook H3 points, (d) at function entries inside the crate (bound 1, first k occurrences per call site); a window without any call or needing two preemptions is left to the supplementary free-running 16-thread pass (sampling). No memory-model exploration (no atomics in the crate; source scan reported in the evidence). If the nightly instrumented build is unavailable (d) is skipped and the evidence says so."),
  "C15": ("exploration", "5 C15", "bounded exhaustive enumeration of configurations, computed region map as oracle",
-   "module_type() at each of the 477 320 coordinates of the 40 sizes, under all levels/masks/modes and several payloads, equals R's ISO region map for the reported / forced version; data-label count = 8 x codewords + remainder bits; build histories; Shape::Command callbacks (registered first, second, third) receive each dark module's own coordinates, value and type.",
+   "module_type() at each of the 477 320 coordinates of the 40 sizes, under all levels/masks/modes and several payloads, equals R's ISO region map for the reported / forced version; data-label count = 8 x codewords + remainder bits; build histories; anti-mask and uniform payloads under every mask; labels of clone()/clone_from() copies; Shape::Command callbacks (registered first, second, third) receive each dark module's own coordinates, value and type.",
    "Either label accepted where an alignment pattern overlaps a timing line."),
 }
 
